@@ -23,14 +23,19 @@ pub fn op_strategy() -> impl Strategy<Value = Op> {
         4 => sel.prop_map(|ty| Op::New { ty }),
         7 => (sel, proptest::collection::vec(any::<u16>(), 9)).prop_map(|(rel, args)| Op::Insert { rel, args }),
         3 => (sel, proptest::collection::vec(any::<u16>(), 9)).prop_map(|(func, args)| Op::Define { func, args }),
-        2 => (sel, sel, sel).prop_map(|(ty, a, b)| Op::Equate { ty, a, b }),
+        3 => (sel, sel, sel).prop_map(|(ty, a, b)| Op::Equate { ty, a, b }),
         1 => Just(Op::Close),
         1 => (1u16..6).prop_map(|k| Op::CloseSteps { k }),
     ]
 }
 
 pub fn history_strategy(max_len: usize) -> impl Strategy<Value = Vec<Op>> {
-    proptest::collection::vec(op_strategy(), 1..=max_len)
+    // a prelude of element creations (so that selectors have something to select), then a mix
+    let prelude = proptest::collection::vec(any::<u16>().prop_map(|ty| Op::New { ty }), 1..=5);
+    (prelude, proptest::collection::vec(op_strategy(), 1..=max_len)).prop_map(|(mut a, b)| {
+        a.extend(b);
+        a
+    })
 }
 
 fn pick(sel: u16, n: usize) -> usize {
